@@ -11,12 +11,16 @@ THRESH = [Fraction(1, 10**8), Fraction(1, 10**7), Fraction(1, 10**6), Fraction(1
 LBOX = [1, 1000]  # translation magnitude boxes for the series-path bound queries (tol scales with the box)
 
 
-def tangent_sampler(g, scale_rot=None):
-    """stratified over the rotation norm: generic, around the small-angle switch, near pi"""
+def tangent_sampler(g, scale_rot=None, well_conditioned=False):
+    """stratified over the rotation norm: generic, around the small-angle switch, near pi.
+    well_conditioned=True (used for validating the TRANSLATOR, not the library) skips the window just above the
+    series switch where the library's own closed forms cancel and two correct compilations legitimately differ."""
     def s(k):
         r = random.Random(k)
         a = [r.uniform(-3, 3) for _ in range(g.dof)]
         strata = [None, 1e-12, 1e-6, 0.99e-4, 1.01e-4, 3e-4, 1e-3, 1e-2, 0.5, 3.0, math.pi - 1e-9, math.pi + 1e-9, 7.0, 45.0]
+        if well_conditioned:
+            strata = [None, 1e-12, 1e-6, 0.5, 2.0, 3.0]
         tgt = strata[k % len(strata)]
         for blk, ro, do, mo in O.group_blocks(g):
             idx = [do + i for i in blk.rot]
